@@ -612,7 +612,14 @@ func (sched *StdScheduler) startExecutionLoop(ctx context.Context, dispatch chan
 
 		case <-sched.interrupt:
 			sched.logger.Trace("Interrupted waiting for next tick")
-			timer.Stop()
+			if !timer.Stop() {
+				// the timer has expired meanwhile: take its tick out of the
+				// channel, or the next wait would end at once
+				select {
+				case <-timer.C:
+				default:
+				}
+			}
 
 		case <-ctx.Done():
 			sched.logger.Info("Exit the execution loop")
